@@ -527,4 +527,242 @@ theorem aorsmul_1_spec (w x : Mpz) (y : Nat) (sub : Bool) (hw : WF w) (hx : WF x
       (by rw [if_neg hdiff]; simpa using c3)
     simpa using this
 
+/-! ## mpz_addmul / mpz_submul (mpz/aorsmul.c) -/
+
+theorem len_le_of_val_le {x y : List Nat} (hx : Norm x) (hy : Norm y) (h : val x ≤ val y) :
+    x.length ≤ y.length := by
+  by_contra hgt
+  have hxne : x ≠ [] := by intro h0; rw [h0] at hgt; simp at hgt
+  have h1 := hx.lower hxne
+  have h2 := hy.upper
+  have h3 : B ^ y.length ≤ B ^ (x.length - 1) := Nat.pow_le_pow_right B_pos (by omega)
+  omega
+
+theorem cmp_twosizes_lt_iff (x y : List Nat) (hx : Norm x) (hy : Norm y) :
+    cmp_twosizes_lt x y = true ↔ val x < val y := by
+  unfold cmp_twosizes_lt
+  simp only [Bool.or_eq_true, Bool.and_eq_true, decide_eq_true_eq, beq_iff_eq]
+  rcases Nat.lt_trichotomy x.length y.length with hlt | heq | hgt
+  · have : val x < val y := by
+      by_contra h
+      have := len_le_of_val_le hy hx (by omega)
+      omega
+    exact ⟨fun _ => this, fun _ => Or.inl hlt⟩
+  · have := K.cmp_lt_iff x y hx.1 hy.1 heq
+    constructor
+    · rintro (h | ⟨_, h⟩)
+      · omega
+      · exact this.mp h
+    · intro h; exact Or.inr ⟨heq, this.mpr h⟩
+  · have : ¬ val x < val y := by
+      intro h
+      have := len_le_of_val_le hx hy (by omega)
+      omega
+    constructor
+    · rintro (h | ⟨h, _⟩) <;> omega
+    · intro h; exact absurd h this
+
+/-- proof-side name for `mpz_aorsmul` after the operand swap (aorsmul.c:63-143) -/
+def aorsmulCore (w x' y' : Mpz) (sub : Bool) : Mpz :=
+  let sub := sub != decide (y'.size < 0)
+  let ysize := y'.size.natAbs
+  if ysize == 1 then aorsmul_1 w x' (y'.d.headD 0) sub
+  else
+    let sub := sub != decide (x'.size < 0)
+    let xsize := x'.size.natAbs
+    let wsize_signed := w.size
+    let sub := sub != decide (wsize_signed < 0)
+    let wsize := wsize_signed.natAbs
+    let tsize := xsize + ysize
+    let w1 := grow w (max wsize tsize + 1)
+    let wp := w.d
+    let t := mpn_mul x'.d y'.d
+    let tsize := tsize - (if topLimb t == 0 then 1 else 0)
+    let tp := t.take tsize
+    if wsize_signed == 0 then
+      { alloc := w1.alloc, size := sgn sub tsize, d := tp }
+    else if !sub then
+      let big := if wsize < tsize then tp else wp
+      let small := if wsize < tsize then wp else tp
+      let r := Mpir.add big small
+      let n := big.length + (if r.2 != 0 then 1 else 0)
+      { alloc := w1.alloc, size := sgn (wsize_signed < 0) n, d := (r.1 ++ [r.2]).take n }
+    else
+      let lt := cmp_twosizes_lt wp tp
+      let big := if lt then tp else wp
+      let small := if lt then wp else tp
+      let wd := normalize (Mpir.sub big small).1
+      { alloc := w1.alloc, size := sgn (decide (wsize_signed < 0) != lt) wd.length, d := wd }
+
+theorem aorsmul_eq (w x y : Mpz) (sub : Bool) :
+    aorsmul w x y sub =
+      if x.size == 0 || y.size == 0 then w
+      else aorsmulCore w (if y.size.natAbs > x.size.natAbs then y else x)
+        (if y.size.natAbs > x.size.natAbs then x else y) sub := rfl
+
+theorem sign3 (sub yneg : Bool) (X : Int) (y0 : Nat) :
+    (if (sub != yneg) = true then -(X * (y0 : Int)) else X * (y0 : Int)) =
+      if sub = true then -(X * (if yneg = true then -(y0 : Int) else (y0 : Int)))
+      else X * (if yneg = true then -(y0 : Int) else (y0 : Int)) := by
+  cases sub <;> cases yneg <;> simp
+
+theorem sval_decide (s : Int) (d : List Nat) :
+    sval s d = if decide (s < 0) = true then -(val d : Int) else (val d : Int) := by
+  unfold sval; by_cases h : s < 0 <;> simp [h]
+
+theorem sign4 (sub yneg xneg : Bool) (X Y : Nat) :
+    (if ((sub != yneg) != xneg) = true then -((X * Y : Nat) : Int) else ((X * Y : Nat) : Int)) =
+      if sub = true
+      then -((if xneg = true then -(X : Int) else (X : Int)) * (if yneg = true then -(Y : Int) else (Y : Int)))
+      else (if xneg = true then -(X : Int) else (X : Int)) * (if yneg = true then -(Y : Int) else (Y : Int)) := by
+  cases sub <;> cases yneg <;> cases xneg <;> simp
+
+theorem aorsmulCore_spec (w x y : Mpz) (sub : Bool) (hw : WF w) (hx : WF x) (hy : WF y)
+    (hx0 : x.size ≠ 0) (hy0 : y.size ≠ 0) (_hle : y.size.natAbs ≤ x.size.natAbs) :
+    WF (aorsmulCore w x y sub) ∧
+    toInt (aorsmulCore w x y sub) =
+      toInt w + (if sub = true then -(toInt x * toInt y) else toInt x * toInt y) := by
+  obtain ⟨hw1, hw2, hwl, hwn⟩ := (WF_iff w).mp hw
+  obtain ⟨_, _, hxl, hxn⟩ := (WF_iff x).mp hx
+  obtain ⟨_, _, hyl, hyn⟩ := (WF_iff y).mp hy
+  have hxne := size_ne_zero hx hx0
+  have hyne := size_ne_zero hy hy0
+  unfold aorsmulCore
+  dsimp only
+  by_cases h1 : (y.size.natAbs == 1) = true
+  · -- aorsmul.c:67-71
+    rw [if_pos h1]
+    have h1' : y.size.natAbs = 1 := by simpa using h1
+    obtain ⟨y0, hy0'⟩ := List.length_eq_one_iff.mp (hyl.trans h1')
+    have hyB : y0 < B := by have := hyn.1; rw [hy0'] at this; exact (Limbs_cons.mp this).1
+    have hh : y.d.headD 0 = y0 := by rw [hy0']; rfl
+    rw [hh]
+    obtain ⟨wf, ti⟩ := aorsmul_1_spec w x y0 (sub != decide (y.size < 0)) hw hx hyB
+    refine ⟨wf, ?_⟩
+    rw [ti, sign3, toInt_eq y, sval_decide y.size, hy0']
+    simp
+  rw [if_neg h1]
+  obtain ⟨ga1, ga2⟩ := grow_alloc w (max w.size.natAbs (x.size.natAbs + y.size.natAbs) + 1)
+  obtain ⟨p1, p2, p3⟩ := K.mul_basecase_val x.d y.d hxn.1 hyn.1 hyne
+  obtain ⟨tv, tl, tn⟩ := prod_strip (mpn_mul x.d y.d) x.d y.d hxn hyn hxne hyne p1 p2 p3
+  rw [hxl, hyl] at tv tl tn
+  have htle : x.size.natAbs + y.size.natAbs - (if (topLimb (mpn_mul x.d y.d) == 0) = true then 1 else 0)
+      ≤ x.size.natAbs + y.size.natAbs := Nat.sub_le _ _
+  generalize x.size.natAbs + y.size.natAbs - (if (topLimb (mpn_mul x.d y.d) == 0) = true then 1 else 0)
+    = tsize at *
+  generalize List.take tsize (mpn_mul x.d y.d) = tp at *
+  rw [toInt_eq x, toInt_eq y, sval_decide x.size, sval_decide y.size, ← sign4, ← tv]
+  generalize hsp : ((sub != decide (y.size < 0)) != decide (x.size < 0)) = sp
+  by_cases hw0 : (w.size == 0) = true
+  · rw [if_pos hw0]
+    have hw0' : w.size = 0 := by simpa using hw0
+    have hwneg : decide (w.size < 0) = false := by simp [hw0']
+    rw [hwneg]
+    obtain ⟨wf, ti⟩ := mk_spec (grow w (max w.size.natAbs (x.size.natAbs + y.size.natAbs) + 1)).alloc
+      tsize (sp != false) tp tl tn (by omega) (by omega)
+    refine ⟨wf, ?_⟩
+    rw [ti, toInt_zero_of_size hw hw0']; simp
+  rw [if_neg hw0]
+  have hw0' : w.size ≠ 0 := by simpa using hw0
+  have hwne := size_ne_zero hw hw0'
+  rw [toInt_eq w, sval_decide w.size]
+  generalize hwneg : decide (w.size < 0) = wneg
+  by_cases hadd : (!(sp != wneg)) = true
+  · -- aorsmul.c:100-118
+    rw [if_pos hadd]
+    have hsame : wneg = sp := by cases sp <;> cases wneg <;> simp at hadd ⊢
+    have hfin : ∀ big small : List Nat, Norm big → Norm small → big ≠ [] → small.length ≤ big.length →
+        big.length ≤ max w.size.natAbs (x.size.natAbs + y.size.natAbs) →
+        val big + val small = val w.d + val tp →
+        WF ⟨(grow w (max w.size.natAbs (x.size.natAbs + y.size.natAbs) + 1)).alloc,
+            sgn wneg (big.length + (if ((Mpir.add big small).2 != 0) = true then 1 else 0)),
+            ((Mpir.add big small).1 ++ [(Mpir.add big small).2]).take
+              (big.length + (if ((Mpir.add big small).2 != 0) = true then 1 else 0))⟩ ∧
+        toInt ⟨(grow w (max w.size.natAbs (x.size.natAbs + y.size.natAbs) + 1)).alloc,
+            sgn wneg (big.length + (if ((Mpir.add big small).2 != 0) = true then 1 else 0)),
+            ((Mpir.add big small).1 ++ [(Mpir.add big small).2]).take
+              (big.length + (if ((Mpir.add big small).2 != 0) = true then 1 else 0))⟩ =
+          (if wneg = true then -(val w.d : Int) else (val w.d : Int)) +
+          (if sp = true then -(val tp : Int) else (val tp : Int)) := by
+      intro big small hb hs hbne hlen hbl hsum
+      obtain ⟨av, ac, al, an⟩ := K.add_val big small hb.1 hs.1 hlen
+      have hlow := hb.lower hbne
+      obtain ⟨cv, cl, cn⟩ := take_carry (Mpir.add big small).1 (Mpir.add big small).2 big.length an al
+        (by have := B_eq; omega) (Or.inr (by omega))
+      obtain ⟨wf, ti⟩ := mk_spec (grow w (max w.size.natAbs (x.size.natAbs + y.size.natAbs) + 1)).alloc
+        _ wneg _ cl cn (by split_ifs <;> omega) (by omega)
+      refine ⟨wf, ?_⟩
+      rw [ti, cv, av, hsum]
+      have := acc_finish wneg sp false (val w.d) (val tp) (val w.d + val tp)
+        (by rw [if_pos hsame]; exact ⟨rfl, rfl⟩)
+      simpa using this
+    by_cases hlt : w.size.natAbs < tsize
+    · simp only [if_pos hlt]
+      have htne : tp ≠ [] := by intro h; rw [h] at tl; simp at tl; omega
+      exact hfin tp w.d tn hwn htne (by omega) (by omega) (by omega)
+    · simp only [if_neg hlt]
+      exact hfin w.d tp hwn tn hwne (by omega) (by omega) rfl
+  · -- aorsmul.c:119-138
+    rw [if_neg hadd]
+    have hdiff : ¬ wneg = sp := by cases sp <;> cases wneg <;> simp at hadd ⊢
+    have hiff := cmp_twosizes_lt_iff w.d tp hwn tn
+    have hfin : ∀ (big small : List Nat) (lt : Bool), Norm big → Norm small → val small ≤ val big →
+        big.length ≤ max w.size.natAbs (x.size.natAbs + y.size.natAbs) →
+        (if lt = true then val big = val tp ∧ val small = val w.d
+          else val big = val w.d ∧ val small = val tp) →
+        WF ⟨(grow w (max w.size.natAbs (x.size.natAbs + y.size.natAbs) + 1)).alloc,
+            sgn (wneg != lt) (normalize (Mpir.sub big small).1).length,
+            normalize (Mpir.sub big small).1⟩ ∧
+        toInt ⟨(grow w (max w.size.natAbs (x.size.natAbs + y.size.natAbs) + 1)).alloc,
+            sgn (wneg != lt) (normalize (Mpir.sub big small).1).length,
+            normalize (Mpir.sub big small).1⟩ =
+          (if wneg = true then -(val w.d : Int) else (val w.d : Int)) +
+          (if sp = true then -(val tp : Int) else (val tp : Int)) := by
+      intro big small lt hb hs hle' hbl hcase
+      have hlen := len_le_of_val_le hs hb hle'
+      obtain ⟨sv, sc, sl, sn⟩ := K.sub_val big small hb.1 hs.1 hlen
+      have hrup := val_lt _ sl
+      rw [sn] at hrup
+      obtain ⟨_, sv'⟩ := borrow_zero sv sc hrup hle'
+      obtain ⟨wf, ti⟩ := mk_spec (grow w (max w.size.natAbs (x.size.natAbs + y.size.natAbs) + 1)).alloc
+        _ (wneg != lt) _ rfl (Norm_normalize sl)
+        (by have := normalize_length_le (Mpir.sub big small).1; omega) (by omega)
+      refine ⟨wf, ?_⟩
+      rw [ti, val_normalize]
+      apply acc_finish wneg sp lt (val w.d) (val tp)
+      rw [if_neg hdiff]
+      cases lt
+      · simp only [Bool.false_eq_true, if_false] at hcase ⊢; omega
+      · simp only [if_true] at hcase ⊢; omega
+    by_cases hlt : cmp_twosizes_lt w.d tp = true
+    · rw [hlt]
+      simp only [if_true]
+      have hv := hiff.mp hlt
+      exact hfin tp w.d true tn hwn (by omega) (by omega) ⟨rfl, rfl⟩
+    · have hlt' : cmp_twosizes_lt w.d tp = false := by simpa using hlt
+      rw [hlt']
+      simp only [Bool.false_eq_true, if_false]
+      have hv : ¬ val w.d < val tp := fun h => hlt (hiff.mpr h)
+      exact hfin w.d tp false hwn tn (by omega) (by omega) ⟨rfl, rfl⟩
+
+theorem aorsmul_spec (w x y : Mpz) (sub : Bool) (hw : WF w) (hx : WF x) (hy : WF y) :
+    WF (aorsmul w x y sub) ∧
+    toInt (aorsmul w x y sub) =
+      toInt w + (if sub = true then -(toInt x * toInt y) else toInt x * toInt y) := by
+  rw [aorsmul_eq]
+  by_cases h0 : (x.size == 0 || y.size == 0) = true
+  · rw [if_pos h0]
+    refine ⟨hw, ?_⟩
+    rcases (by simpa using h0 : x.size = 0 ∨ y.size = 0) with h | h
+    · rw [toInt_zero_of_size hx h]; simp
+    · rw [toInt_zero_of_size hy h]; simp
+  rw [if_neg h0]
+  have ⟨hx0, hy0⟩ : x.size ≠ 0 ∧ y.size ≠ 0 := by simpa using h0
+  by_cases hsw : y.size.natAbs > x.size.natAbs
+  · simp only [if_pos hsw]
+    obtain ⟨wf, ti⟩ := aorsmulCore_spec w y x sub hw hy hx hy0 hx0 (by omega)
+    exact ⟨wf, by rw [ti, Int.mul_comm]⟩
+  · simp only [if_neg hsw]
+    exact aorsmulCore_spec w x y sub hw hx hy hx0 hy0 (by omega)
+
 end Mpir.Mpz
